@@ -490,6 +490,12 @@ class Impl(object):
         if op == "delete":
             t.delete_webentity(int(w[1]), unx_arg_iter(w[2]))
             return "ok"
+        if op == "pokeid":
+            # the id counter of the header set by hand, through the header's own write: an index that has issued that many ids
+            h = self.t.lru_trie.header
+            h.set_last_webentity_id(int(w[1])) if hasattr(h, "set_last_webentity_id") else h.data.__setitem__(0, int(w[1]))
+            h.write()
+            return "ok"
         if op == "deleteu":
             self.du_calls = getattr(self, "du_calls", 0) + 1
             t.delete_webentity([None, 0, 7][self.du_calls % 3], unx_arg_iter(w[1]), check_for_corruption=False)
